@@ -386,6 +386,9 @@ class CodeGenerator:
         elif self.context.equal_types(cty, "boolean"):
             # Implement booleans as integers:
             ty = self.get_ir_int()
+        elif isinstance(cty, types.SubRange):
+            # A subrange of integer is stored as an integer:
+            ty = self.get_ir_int()
         elif isinstance(cty, types.PointerType):
             # A pointer is a pointer, no type info in ir.
             ty = ir.ptr
